@@ -8,6 +8,8 @@ import FimVerif.Proofs.Lemmas.C03Fail
 import FimVerif.Generated.Fields
 import FimVerif.Proofs.Lemmas.C03Phase
 import FimVerif.Generated.MiPhase
+import FimVerif.Model.CodecShared
+import FimVerif.Generated.TTShared
 /-!
 # C03 — attribute value codecs are lossless, canonical and never mutate their input
 
@@ -1055,5 +1057,30 @@ theorem phase_no_copy_at_finalize_counterexample :
   decide
 
 end phase
+
+/-! ## the validator object the typed-tuple classes share (Model/CodecShared.lean) -/
+
+/-- **histories over several categories.**  A validator that remembers verdicts under the key (category, name) answers every lookup
+of every history - any categories, any names, any order, from an empty memo - with membership of the name in the table of the
+category asked: exactly the test `ttNew` / `ttOf` make on the tuple's own table.  (Holds for every key that separates
+(category, name) pairs: `CodecShared.runLookups_ok`.) -/
+theorem ttuple_shared_validator_history (tbl : String → List (List Char)) (qs : List (String × List Char)) :
+    CodecShared.runLookups (fun c t => (c, t)) tbl [] qs = qs.map (fun q => (tbl q.1).contains q.2) := by
+  rw [CodecShared.runLookups_ok _ tbl (by intro c t c' t' h; exact Prod.mk.inj h) qs [] (by intro p hp; simp at hp)]
+  simp [CodecShared.verdict]
+
+/-- remembering verdicts under the NAME alone is not such a validator: a name refused in one category is then refused in the
+category that has it -/
+theorem ttuple_validator_memo_by_name_counterexample :
+    let tbl : Bool → List Nat := fun c => if c then [1] else []
+    CodecShared.runLookups (fun _ t => t) tbl [] [(false, 1), (true, 1)] = [false, false] ∧
+    [(false, 1), (true, 1)].map (fun q => CodecShared.verdict tbl q.1 q.2) = [false, true] := by
+  decide
+
+/-- ... and the running code was such a validator on the probe histories of gen/ttshared.py (every name of every category offered to
+every tuple class through the three entry points, own category first / foreign categories first / rotated, everything twice):
+every verdict was the one of the class's own table.  (The differential lines `tt.new / tt.from / tt.parse` with foreign names in a
+seeded order and the oracle family `tt_cross` check the same on every run.) -/
+theorem ttuple_validator_history_free_code : Gen.TTShared.validatorHistoryFree = true := by decide
 
 end FimVerif.C03
